@@ -61,6 +61,9 @@ func convertToComplex(other Object) (Complex, bool) {
 	return 0, false
 }
 
+// Errors
+var complexDivisionByZero = ExceptionNewf(ZeroDivisionError, "complex division by zero")
+
 func (a Complex) M__str__() (Object, error) {
 	return String(fmt.Sprintf("(%g%+gj)", real(complex128(a)), imag(complex128(a)))), nil
 }
@@ -131,6 +134,9 @@ func (a Complex) M__imul__(other Object) (Object, error) {
 
 func (a Complex) M__truediv__(other Object) (Object, error) {
 	if b, ok := convertToComplex(other); ok {
+		if b == 0 {
+			return nil, complexDivisionByZero
+		}
 		return Complex(a / b), nil
 	}
 	return NotImplemented, nil
@@ -138,6 +144,9 @@ func (a Complex) M__truediv__(other Object) (Object, error) {
 
 func (a Complex) M__rtruediv__(other Object) (Object, error) {
 	if b, ok := convertToComplex(other); ok {
+		if a == 0 {
+			return nil, complexDivisionByZero
+		}
 		return Complex(b / a), nil
 	}
 	return NotImplemented, nil
